@@ -13,8 +13,10 @@ EVENT = "event"      # the event dict itself (a real dict: get / in / items / [g
 HOSTILE = "hostile"  # arbitrary object: attribute access, call, str/repr/format, arithmetic, comparison may raise
 TEXT = "text"        # known to be a str
 SAFE = "safe"        # trusted / not event-derived (flags, callables given by the caller, library objects)
+TYPED = "typed"      # event-derived but established (isinstance) to be of a known library type: its own attributes and
+                     # methods are trusted, handing it to another callee is still a may-raise site
 
-_RANK = {TEXT: 0, SAFE: 1, EVENT: 2, HOSTILE: 3}
+_RANK = {TEXT: 0, SAFE: 1, TYPED: 2, EVENT: 3, HOSTILE: 4}
 LEVELS = {"none": 0, "exc": 1, "all": 2}
 
 
@@ -110,6 +112,7 @@ class EscapeAnalysis:
         self._memo: Dict[tuple, str] = {}
         self._active: set = set()
         self.assumed_total: set = set()
+        self.table_funcs: Dict[str, list] = {}   # local callable name -> [(function node, kind of its argument)] (table-driven dispatch)
 
     # ---- resolution --------------------------------------------------------------------------
     def resolve(self, name: str, func: ast.AST, rel: str) -> Optional[Tuple[str, ast.AST]]:
@@ -249,6 +252,9 @@ class _FuncWalker:
         if isinstance(st, ast.If):
             self.ev(st.test, truth=True)
             e0 = dict(self.env)
+            for nm in _isinstance_names(st.test):
+                if self.env.get(nm) in (HOSTILE, EVENT):
+                    self.env[nm] = TYPED
             self.block(st.body)
             e1 = self.env
             self.env = dict(e0)
@@ -351,8 +357,16 @@ class _FuncWalker:
             return HOSTILE if k in (HOSTILE, EVENT) else SAFE
         if isinstance(e, ast.BoolOp):
             k = None
+            saved = dict(self.env)
             for v in e.values:
                 k = worst(k, self.ev(v, truth=truth))
+                if isinstance(e.op, ast.And):
+                    for nm in _isinstance_names(v):
+                        if self.env.get(nm) in (HOSTILE, EVENT):
+                            self.env[nm] = TYPED   # later operands run only when the isinstance test held
+            for nm in list(self.env):
+                if self.env[nm] == TYPED and saved.get(nm) in (HOSTILE, EVENT):
+                    self.env[nm] = saved[nm]
             return k
         if isinstance(e, ast.UnaryOp):
             k = self.ev(e.operand, truth=isinstance(e.op, ast.Not))
@@ -393,7 +407,7 @@ class _FuncWalker:
             if k == HOSTILE:
                 self.site(where, "getattr", f"attribute .{e.attr} read on event-derived value {src(e.value)}")
                 return HOSTILE
-            return SAFE
+            return TYPED if k == TYPED else SAFE
         if isinstance(e, ast.Subscript):
             k = self.ev(e.value)
             sk = self.ev(e.slice) if not isinstance(e.slice, ast.Slice) else worst(worst(self.ev(e.slice.lower), self.ev(e.slice.upper)), SAFE)
@@ -445,6 +459,7 @@ class _FuncWalker:
         kwk = {k.arg: self.ev(k.value) for k in e.keywords}
         allk = argk + list(kwk.values())
         anyh = any(k in (HOSTILE, EVENT) for k in allk)
+        anyt = anyh or any(k == TYPED for k in allk)
         name = f.id if isinstance(f, ast.Name) else None
         if name is not None:
             fk = self.env.get(name, SAFE)
@@ -458,6 +473,16 @@ class _FuncWalker:
                 return SAFE
             if name in an.TOTAL_FUNCS:
                 return TEXT if name in an.TEXT_FUNCS else SAFE
+            if name == "getattr" and len(e.args) == 3 and argk[0] not in (HOSTILE, EVENT) and argk[1] != HOSTILE:
+                return SAFE   # three-argument getattr on a trusted object never raises for a str name
+            if name in an.table_funcs:
+                out = None
+                for fn, kind in an.table_funcs[name]:
+                    kinds = {}
+                    if fn.args.args and argk:
+                        kinds[fn.args.args[0].arg] = kind if argk[0] in (HOSTILE, EVENT, TYPED) else argk[0]
+                    out = worst(out, an.analyse(self.rel, fn, {k_: v for k_, v in kinds.items() if v != SAFE}, self.level(e)))
+                return out or SAFE
             if name in ("str", "repr", "format", "ascii", "len", "int", "float", "bytes", "iter", "list", "tuple", "dict",
                         "sorted", "hash", "abs", "round", "map", "getattr", "hasattr", "next", "sum", "min", "max", "any", "all"):
                 if anyh and not (name in ("list", "tuple", "len", "dict", "iter") and all(k != HOSTILE for k in allk)):
@@ -466,7 +491,9 @@ class _FuncWalker:
             r = an.resolve(name, self.func, self.rel)
             if r is not None:
                 return self.call_repo(r, e, argk, kwk)
-            if anyh:
+            if name in self.env and self.env[name] == SAFE and isinstance(an.ctx.mod(self.rel).find(self.qual + "." + name), (ast.FunctionDef,)):
+                return self.call_repo((self.rel, an.ctx.mod(self.rel).find(self.qual + "." + name)), e, argk, kwk)
+            if anyt:
                 self.site(where, "call-out", f"{name}(...) receives an event-derived value")
             return SAFE
         if isinstance(f, ast.Attribute):
@@ -475,6 +502,14 @@ class _FuncWalker:
             if rk == HOSTILE:
                 self.site(where, "method", f"method .{m}() on event-derived value {src(f.value)}")
                 return HOSTILE
+            if rk == TYPED:
+                total_decode = m == "decode" and ((e.args and isinstance(e.args[0], ast.Constant) and str(e.args[0].value).lower().replace("_", "-") in
+                                                   ("charmap", "latin-1", "latin1", "iso-8859-1", "iso8859-1")) or
+                                                  any(isinstance(a, ast.Constant) and a.value in ("replace", "ignore", "backslashreplace")
+                                                      for a in list(e.args[1:]) + [k.value for k in e.keywords if k.arg == "errors"]))
+                if m in ("decode", "encode", "index", "format", "format_map", "pop", "remove") and not total_decode:
+                    self.site(where, "method", f"method .{m}() of event-derived value {src(f.value)} can raise for some values of its type")
+                return TEXT if m in an.TEXT_METHODS else SAFE
             if rk == EVENT:
                 if m in an.DICT_TOTAL:
                     if m == "get":
@@ -498,7 +533,7 @@ class _FuncWalker:
             last = d.split(".")[-1]
             if last in an.TOTAL_FUNCS:
                 return TEXT if last in an.TEXT_FUNCS else SAFE
-            if anyh:
+            if anyt:
                 self.site(where, "call-out", f"{src(f)}(...) receives an event-derived value")
             else:
                 an.assumed_total.add(src(f))
@@ -522,6 +557,15 @@ class _FuncWalker:
         kinds = {k: v for k, v in kinds.items() if v != SAFE}
         lvl = self.level(e)
         return self.an.analyse(rel, fn, kinds, lvl)
+
+
+def _isinstance_names(test) -> List[str]:
+    """Names established by `isinstance(name, T)` when ``test`` is true (conjunctions are looked through)."""
+    if isinstance(test, ast.BoolOp) and isinstance(test.op, ast.And):
+        return [n for v in test.values for n in _isinstance_names(v)]
+    if isinstance(test, ast.Call) and isinstance(test.func, ast.Name) and test.func.id == "isinstance" and len(test.args) == 2 and isinstance(test.args[0], ast.Name):
+        return [test.args[0].id]
+    return []
 
 
 def _load(t):
@@ -836,14 +880,72 @@ class _Cnt(_Signal):
 
 
 class Obj:
-    """Instance of an interpreted repository class."""
+    """Instance of an interpreted repository class.  The Python protocol methods are forwarded to the interpreted
+    class so that stdlib code (string.Formatter, json) can operate on such instances."""
 
     def __init__(self, cls):
-        self.cls = cls
-        self.attrs: Dict[str, object] = {}
+        object.__setattr__(self, "cls", cls)
+        object.__setattr__(self, "attrs", {})
+
+    def _dunder(self, name):
+        f = self.cls.find(name)
+        return BoundMethod(self, f) if f is not None else None
+
+    def __getattr__(self, name):
+        if name.startswith("_interp") or name in ("cls", "attrs"):
+            raise AttributeError(name)
+        d = object.__getattribute__(self, "__dict__")
+        attrs = d.get("attrs", {})
+        if name in attrs:
+            return attrs[name]
+        cls = d.get("cls")
+        if cls is None:
+            raise AttributeError(name)
+        f = cls.find(name)
+        if f is not None:
+            return BoundMethod(self, f)
+        if name.startswith("__") and name.endswith("__"):
+            raise AttributeError(name)
+        g = cls.find("__getattr__")
+        if g is not None:
+            return BoundMethod(self, g)(name)
+        raise AttributeError(f"{cls.node.name} object has no attribute {name}")
+
+    def __getitem__(self, key):
+        m = self._dunder("__getitem__")
+        if m is None:
+            raise TypeError(f"{self.cls.node.name} object is not subscriptable")
+        return m(key)
+
+    def __format__(self, spec):
+        m = self._dunder("__format__")
+        return m(spec) if m is not None else format(str(self), spec)
+
+    def __str__(self):
+        m = self._dunder("__str__")
+        return m() if m is not None else self.__repr__()
 
     def __repr__(self):
-        return f"<{self.cls.node.name} {self.attrs!r}>"
+        m = self._dunder("__repr__")
+        return m() if m is not None else f"<{self.cls.node.name} {self.attrs!r}>"
+
+    def __iter__(self):
+        m = self._dunder("__iter__")
+        if m is None:
+            raise TypeError(f"{self.cls.node.name} object is not iterable")
+        return iter(m())
+
+    def __len__(self):
+        m = self._dunder("__len__")
+        if m is None:
+            raise TypeError(f"{self.cls.node.name} object has no len()")
+        return m()
+
+    def __call__(self, *args, **kwargs):
+        m = self._dunder("__call__")
+        if m is None:
+            raise TypeError(f"{self.cls.node.name} object is not callable")
+        return m(*args, **kwargs)
 
 
 class Func:
@@ -1192,6 +1294,9 @@ class Interp:
                 stack.extend(c.bases())
             if name == "__class__":
                 return o.cls
+            g = o.cls.find("__getattr__")
+            if g is not None and not (name.startswith("__") and name.endswith("__")):
+                return BoundMethod(o, g)(name)
             raise AttributeError(f"{o.cls.node.name} object has no attribute {name}")
         if isinstance(o, ClassVal):
             f = o.find(name)
